@@ -224,16 +224,16 @@ def translate(repo):
     lt_tests.update({"self.is_enum": False, "self.is_scalar": True})
     mfn = Fn("lt_mask", [("width", "Z")], lt_attrs, {}, set(), {})
     out.append("Definition lt_mask (width : Z) : Z :=\n  %s.\n" % self_attr_init(lt, "mask", mfn))
-    out.append(Fn("lt_append", [("width", "Z"), ("mask", "Z"), ("v", "Z")], lt_attrs, {}, {"f.set_val"}, lt_tests)
+    out.append(Fn("lt_append", WB + [("mask", "Z"), ("v", "Z")], lt_attrs, {}, {"f.set_val"}, lt_tests)
                .define(strip_field_alloc(find_method(lt, "append"))))
-    out.append(Fn("lt_setitem", [("width", "Z"), ("v", "Z")], lt_attrs, {}, {"self.get_model().field_l[k].set_val"}, lt_tests)
+    out.append(Fn("lt_setitem", WB + [("mask", "Z"), ("v", "Z")], lt_attrs, {}, {"self.get_model().field_l[k].set_val"}, lt_tests)
                .define(find_method(lt, "__setitem__")))
     out.append(Fn("lt_getitem", WB + [("mask", "Z"), ("cur", "Z")], lt_attrs, {"model.field_l[k].get_val()": "cur"}, set(), lt_tests)
                .define(find_method(lt, "__getitem__")))
     nx = find_nested_method(lt, "__iter__", "list_scalar_it", "__next__")
     out.append(Fn("lt_iter_next", WB + [("mask", "Z"), ("cur", "Z")], lt_attrs,
                   {"self.model.field_l[self.idx].get_val()": "cur"}, set(),
-                  {"iter_exhausted": False}).define(strip_iter(nx)))
+                  {"iter_exhausted": False, "self.l.is_enum": False}).define(strip_iter(nx)))
 
     fs_attrs = {"self.width": "width", "self.is_signed": ("bool", "is_signed"), "self.mask": "mask"}
     out.append("Definition fsm_mask (width : Z) : Z :=\n  %s.\n" % self_attr_init(fs, "mask", Fn("fsm_mask", [], fs_attrs, {}, set(), {})))
